@@ -29,6 +29,10 @@ r4 = [json.load(open(dd + 'meta.json')) for dd in sorted(glob.glob('/verif/seede
 own = sum(1 for m in r4 if m['confirmed'].get('own_property_check_detected_on_first_run'))
 r4_stats = "%d of %d were caught at once by the targeted check; the others were observed misses of that check (some of them reported by the check of another property, see the table)" % (own, len(r4))
 tail = tail.replace('@@R4_STATS@@', r4_stats)
+r5 = [json.load(open(dd + 'meta.json')) for dd in sorted(glob.glob('/verif/seeded/C*-9/') + glob.glob('/verif/seeded/C*-10/'))]
+own5 = sum(1 for m in r5 if m['confirmed'].get('own_property_check_detected_on_first_run'))
+any5 = sum(1 for m in r5 if m['confirmed'].get('first_run', {}).get('detected_by'))
+tail = tail.replace('@@R5_STATS@@', "%d of %d were caught at once by the targeted check, %d of %d by some check" % (own5, len(r5), any5, len(r5)))
 tail = tail.replace('@@COVERAGE_TABLE@@', cov).replace('@@SEED_TABLE@@', seeds).replace('@@MUTANT_TABLE@@', mut)
 open('/verif/DESIGN.md', 'w').write(d.rstrip('\n') + "\n\n" + head + tail)
 print("DESIGN.md assembled: %d bytes" % os.path.getsize('/verif/DESIGN.md'))
